@@ -12,60 +12,88 @@ import (
 	"golang.org/x/tools/go/ssa/ssautil"
 )
 
+const mod = "github.com/yorkie-team/yorkie/"
+
+var classOf = map[string]string{"packs.DocKey": "doc", "packs.DocPullKey": "pull", "documents.DocAttachmentKey": "attachment", "packs.DocPushKey": "push", "packs.SnapshotKey": "snapshot", "documents.DocWatchStreamKey": "watchstream"}
+
 func keyClass(v ssa.Value, depth int) string {
 	if depth > 6 { return "?" }
 	switch v := v.(type) {
 	case *ssa.Call:
-		if c := v.Call.StaticCallee(); c != nil {
-			if strings.HasSuffix(c.Name(), "Key") { return c.Pkg.Pkg.Name() + "." + c.Name() }
-			return "call:" + c.String()
-		}
+		if c := v.Call.StaticCallee(); c != nil && c.Pkg != nil { if cl, ok := classOf[c.Pkg.Pkg.Name()+"."+c.Name()]; ok { return cl } }
 	case *ssa.Const:
-		if v.Value != nil && v.Value.Kind() == constant.String { return "const:" + constant.StringVal(v.Value) }
-	case *ssa.ChangeType:
-		return keyClass(v.X, depth+1)
-	case *ssa.Convert:
-		return keyClass(v.X, depth+1)
-	case *ssa.Phi:
-		var s []string
-		for _, e := range v.Edges { s = append(s, keyClass(e, depth+1)) }
-		return "phi(" + strings.Join(s, "|") + ")"
+		if v.Value != nil && v.Value.Kind() == constant.String && strings.HasPrefix(constant.StringVal(v.Value), "housekeeping/") { return "housekeeping" }
+	case *ssa.ChangeType: return keyClass(v.X, depth+1)
+	case *ssa.Convert: return keyClass(v.X, depth+1)
 	}
-	return fmt.Sprintf("?%T", v)
+	return "?"
 }
 
+type acq struct{ class, mode string; b *ssa.BasicBlock; idx int; pos string }
+
 func main() {
-	cfg := &packages.Config{Mode: packages.LoadAllSyntax, Dir: "/repo"}
+	dir := os.Getenv("YV_DIR"); if dir == "" { dir = "/repo" }
+	cfg := &packages.Config{Mode: packages.LoadAllSyntax, Dir: dir}
 	pkgs, err := packages.Load(cfg, "./server/...")
 	if err != nil { fmt.Println(err); os.Exit(2) }
 	prog, _ := ssautil.AllPackages(pkgs, ssa.InstantiateGenerics)
 	prog.Build()
-	type acq struct{ fn, kind, class, pos string; deferred bool }
-	var out []string
-	for fn := range ssautil.AllFunctions(prog) {
-		if fn.Pkg == nil || !strings.HasPrefix(fn.Pkg.Pkg.Path(), "github.com/yorkie-team/yorkie/server") { continue }
-		if fn.Blocks == nil { continue }
-		// order by block index / instr index (approx program order)
-		for _, b := range fn.Blocks {
-			for _, ins := range b.Instrs {
-				var cc *ssa.CallCommon
-				isDefer := false
-				switch i := ins.(type) {
-				case *ssa.Call: cc = &i.Call
-				case *ssa.Defer: cc = &i.Call; isDefer = true
-				}
-				if cc == nil { continue }
-				callee := cc.StaticCallee()
-				name := ""
-				if callee != nil { name = callee.String() } else if cc.IsInvoke() { name = "invoke " + cc.Method.FullName() }
-				if strings.Contains(name, "sync.LockerManager).Locker") {
-					out = append(out, fmt.Sprintf("%s\tb%d\tACQ %s key=%s", fn.String(), b.Index, name[strings.LastIndex(name, ".")+1:], keyClass(cc.Args[len(cc.Args)-1], 0)))
-				} else if strings.Contains(name, "sync.Locker).Unlock") || strings.Contains(name, "sync.Locker).RUnlock") {
-					out = append(out, fmt.Sprintf("%s\tb%d\tREL %s defer=%v", fn.String(), b.Index, name[strings.LastIndex(name, ".")+1:], isDefer))
-				}
+	fns := map[*ssa.Function]bool{}
+	for fn := range ssautil.AllFunctions(prog) { if fn.Pkg != nil && strings.HasPrefix(fn.Pkg.Pkg.Path(), mod+"server") && !strings.Contains(fn.Pkg.Pkg.Path(), "testcases") && fn.Blocks != nil { fns[fn] = true } }
+	acqs := map[*ssa.Function][]acq{}
+	type callsite struct{ callee *ssa.Function; b *ssa.BasicBlock; idx int; spawned bool }
+	calls := map[*ssa.Function][]callsite{}
+	for fn := range fns {
+		for _, b := range fn.Blocks { for i, ins := range b.Instrs {
+			var cc *ssa.CallCommon; spawned := false
+			switch x := ins.(type) { case *ssa.Call: cc = &x.Call; case *ssa.Go: cc = &x.Call; spawned = true; case *ssa.Defer: continue }
+			if cc == nil { continue }
+			callee := cc.StaticCallee()
+			if callee != nil && strings.Contains(callee.String(), "sync.LockerManager).Locker") {
+				mode := "W"; if strings.HasSuffix(callee.Name(), "RLock") { mode = "R" } else if strings.HasSuffix(callee.Name(), "TryLock") { mode = "T" }
+				acqs[fn] = append(acqs[fn], acq{keyClass(cc.Args[len(cc.Args)-1], 0), mode, b, i, prog.Fset.Position(ins.Pos()).String()})
+				continue
 			}
+			if callee != nil { calls[fn] = append(calls[fn], callsite{callee, b, i, spawned}) }
+			// closures passed as args: treat be.Go / background.Go / errgroup as spawn; others (cmap callbacks) as called
+			for _, a := range cc.Args { if mc, ok := a.(*ssa.MakeClosure); ok { if f, ok := mc.Fn.(*ssa.Function); ok {
+				sp := spawned || (callee != nil && (strings.HasSuffix(callee.String(), "Backend).Go") || strings.HasSuffix(callee.String(), "Background).Go") || strings.Contains(callee.String(), "errgroup") || strings.HasSuffix(callee.String(), "WaitGroup).Go")))
+				calls[fn] = append(calls[fn], callsite{f, b, i, sp})
+			}}}
+		}}
+	}
+	// transitive acquire summary (non-spawned calls)
+	summ := map[*ssa.Function]map[string]bool{}
+	var visit func(f *ssa.Function, stack map[*ssa.Function]bool) map[string]bool
+	visit = func(f *ssa.Function, stack map[*ssa.Function]bool) map[string]bool {
+		if s, ok := summ[f]; ok { return s }
+		if stack[f] { return nil }
+		stack[f] = true
+		s := map[string]bool{}
+		for _, a := range acqs[f] { s[a.class+"("+a.mode+")"] = true }
+		for _, c := range calls[f] { if c.spawned { continue }; for k := range visit(c.callee, stack) { s[k] = true } }
+		delete(stack, f)
+		summ[f] = s
+		return s
+	}
+	for fn := range fns { visit(fn, map[*ssa.Function]bool{}) }
+	reach := func(from *ssa.BasicBlock, fromIdx int, to *ssa.BasicBlock, toIdx int) bool {
+		if from == to && fromIdx < toIdx { return true }
+		seen := map[*ssa.BasicBlock]bool{}
+		q := append([]*ssa.BasicBlock{}, from.Succs...)
+		for len(q) > 0 { b := q[0]; q = q[1:]; if seen[b] { continue }; seen[b] = true; if b == to { return true }; q = append(q, b.Succs...) }
+		return false
+	}
+	edges := map[string][]string{}
+	for fn, as := range acqs {
+		for _, a := range as {
+			for _, b := range as { if a != b && reach(a.b, a.idx, b.b, b.idx) { k := a.class + "(" + a.mode + ") -> " + b.class + "(" + b.mode + ")"; edges[k] = append(edges[k], fn.Name()) } }
+			for _, c := range calls[fn] { if c.spawned || !reach(a.b, a.idx, c.b, c.idx) { continue }
+				for cl := range summ[c.callee] { k := a.class + "(" + a.mode + ") -> " + cl; edges[k] = append(edges[k], fn.Name()+"→"+c.callee.Name()) } }
 		}
 	}
-	sort.Strings(out)
-	for _, l := range out { fmt.Println(l) }
+	var ks []string
+	for k := range edges { ks = append(ks, k) }
+	sort.Strings(ks)
+	for _, k := range ks { u := map[string]bool{}; var l []string; for _, f := range edges[k] { if !u[f] { u[f] = true; l = append(l, f) } }; sort.Strings(l); fmt.Printf("%-32s %v\n", k, l) }
 }
